@@ -32,18 +32,18 @@ def T(profile, n, extra=()):
 PROPS = {
     "C01": {
         "runs": runs(
-            [T("general", 1500, Q), T("resize", 1200), T("alt", 900), T("parser", 900), T("scrollback", 600),
+            [T("exhaust2", 23232), T("general", 1500, Q), T("resize", 1200), T("alt", 900), T("parser", 900), T("scrollback", 600),
              ("chunk", "general", 450, []), ("stream", "scrollback", 450, []), ("dump", "general", 300, []),
              ("text", "general", 600, []), ("stress", "stress", 192, [])],
-            [T("general", 20000, Q), T("resize", 12000), T("alt", 8000), T("parser", 8000), T("scrollback", 4000),
+            [T("exhaust3", 1022208), T("general", 20000, Q), T("resize", 12000), T("alt", 8000), T("parser", 8000), T("scrollback", 4000),
              T("edit", 4000), T("scroll", 4000), T("save", 3000), T("tabs", 3000),
              ("chunk", "general", 4000, []), ("stream", "scrollback", 4000, []), ("dump", "general", 3000, []),
              ("text", "general", 5000, []), ("stress", "stress", 2000, [])]),
         "cone": ALLP, "proj": ["panic.", "hang."],
     },
     "C02": {
-        "runs": runs([T("general", 1500, Q), T("resize", 1500), T("alt", 1500), T("save", 1500), T("print", 900)],
-                     [T("general", 20000, Q), T("resize", 15000), T("alt", 10000), T("scrollback", 5000), T("save", 8000),
+        "runs": runs([T("exhaust2", 23232), T("general", 1500, Q), T("resize", 1500), T("alt", 1500), T("save", 1500), T("print", 900)],
+                     [T("exhaust3", 1022208), T("general", 20000, Q), T("resize", 15000), T("alt", 10000), T("scrollback", 5000), T("save", 8000),
                       T("print", 5000)]),
         "cone": ALLP, "proj": ["size", "buf.geom", "buf.nlines", "other.geom", "other.nlines", "cursor", "dirty_len",
                                "out.lines", "panic.", "public"],
@@ -61,19 +61,19 @@ PROPS = {
                 "on generated streams; memorylessness and SGR decoding checked on the implementation",
     },
     "C04": {
-        "runs": runs([T("print", 2700), T("general", 900)], [T("print", 40000), T("general", 15000), T("resize", 8000)]),
+        "runs": runs([T("exhaust2", 23232), T("print", 2700), T("general", 900)], [T("exhaust3", 1022208), T("print", 40000), T("general", 15000), T("resize", 8000)]),
         "cone": PRINT_FNS, "proj": VIEW_PROJ + ["charset", "modes", "pen"],
     },
     "C05": {
-        "runs": runs([T("cursor", 2700), T("tabs", 900), T("alt", 600)], [T("cursor", 40000), T("tabs", 12000), T("general", 12000)]),
+        "runs": runs([T("exhaust2", 23232), T("cursor", 2700), T("tabs", 900), T("alt", 600)], [T("exhaust3", 1022208), T("cursor", 40000), T("tabs", 12000), T("general", 12000)]),
         "cone": CURSOR_FNS, "proj": ["cursor", "margins", "modes", "buf.", "panic."],
     },
     "C06": {
-        "runs": runs([T("scroll", 2700), T("scrollback", 900), T("alt", 900)], [T("scroll", 40000), T("scrollback", 15000), T("general", 12000)]),
+        "runs": runs([T("exhaust2", 23232), T("scroll", 2700), T("scrollback", 900), T("alt", 900)], [T("exhaust3", 1022208), T("scroll", 40000), T("scrollback", 15000), T("general", 12000)]),
         "cone": SCROLL_FNS, "proj": VIEW_PROJ + ["margins"],
     },
     "C07": {
-        "runs": runs([T("edit", 3000), T("general", 600)], [T("edit", 40000), T("general", 12000)]),
+        "runs": runs([T("exhaust2", 23232), T("edit", 3000), T("general", 600)], [T("exhaust3", 1022208), T("edit", 40000), T("general", 12000)]),
         "cone": EDIT_FNS, "proj": VIEW_PROJ,
     },
     "C08": {
@@ -116,16 +116,16 @@ PROPS = {
         "cone": ["L"] + SCROLL_FNS, "proj": ["out.drained", "buf.scrollback", "buf.nlines", "buf.trim", "panic."],
     },
     "C15": {
-        "runs": runs([T("dirty", 2700), T("general", 900), T("resize", 600)],
-                     [T("dirty", 40000), T("general", 12000), T("resize", 10000), T("alt", 6000)]),
+        "runs": runs([T("exhaust2", 23232), T("dirty", 2700), T("general", 900), T("resize", 600)],
+                     [T("exhaust3", 1022208), T("dirty", 40000), T("general", 12000), T("resize", 10000), T("alt", 6000)]),
         "cone": ALLP, "proj": ["dirty_under", "dirty_len", "out.lines", "buf.view", "panic."],
     },
     "C16": {
-        "runs": runs([T("alt", 3600)], [T("alt", 50000), T("save", 10000), T("general", 10000)]),
+        "runs": runs([T("exhaust2", 23232), T("alt", 3600)], [T("exhaust3", 1022208), T("alt", 50000), T("save", 10000), T("general", 10000)]),
         "cone": ALLP, "proj": ["other.", "buf.", "active", "sctx", "asctx", "cursor", "panic."],
     },
     "C17": {
-        "runs": runs([T("save", 3600)], [T("save", 50000), T("alt", 12000)]),
+        "runs": runs([T("exhaust2", 23232), T("save", 3600)], [T("exhaust3", 1022208), T("save", 50000), T("alt", 12000)]),
         "cone": SAVE_FNS, "proj": ["sctx", "asctx", "cursor", "pen", "modes", "active", "panic."],
     },
     "C18": {
